@@ -281,6 +281,10 @@ def text(e: dict) -> str:
         return str(e.get("value"))
     if k == "FloatingLiteral":
         return str(e.get("value"))
+    if k == "CharacterLiteral":
+        return repr(chr(int(e.get("value"))))
+    if k == "StringLiteral":
+        return str(e.get("value"))
     if k == "BinaryOperator" or k == "CompoundAssignOperator":
         return f"{text(ks[0])} {e.get('opcode')} {text(ks[1])}"
     if k == "UnaryOperator":
